@@ -419,8 +419,10 @@ func ruleFlagsEffects(c *Ctx) {
 // (the CallFromNative site is unreachable when it is false) and traced back through the callers that pass it along;
 // a function that passes the constant true is a *source*. A native method registered without AllowCall whose
 // handler reaches a source calls the receiver's onNEP17Payment from a context that has no AllowCall.
-func paymentCallbackClause(c *Ctx, regs *Regs, legacy func(r *NativeReg, m string) bool) {
-	g := c.P.MRG()
+// paymentCallbackSources: the functions that pass the constant true for the boolean parameter which gates the
+// payment callback in postTransfer (traced back through the callers that pass the parameter along); nil, false if the
+// anchor is gone.
+func paymentCallbackSources(c *Ctx) (map[*ssa.Function]string, bool) {
 	var post *FuncDecl
 	for _, fd := range c.P.AllFuncDecls() {
 		if fd.Decl.Body != nil && fd.Obj.Name() == "postTransfer" && pkgRel(fd.Pkg.Types) == "pkg/core/native" {
@@ -429,13 +431,13 @@ func paymentCallbackClause(c *Ctx, regs *Regs, legacy func(r *NativeReg, m strin
 	}
 	if post == nil {
 		c.Lost("payment-callback.anchor", "postTransfer not found")
-		return
+		return nil, false
 	}
 	f := c.P.NewFuncCFG(post)
 	sites := f.CallSites("pkg/core/interop/contract.CallFromNative")
 	if len(sites) == 0 {
 		c.Note("payment-callback: postTransfer no longer calls CallFromNative")
-		return
+		return nil, false
 	}
 	sig := post.Obj.Type().(*types.Signature)
 	gate := -1
@@ -456,7 +458,7 @@ func paymentCallbackClause(c *Ctx, regs *Regs, legacy func(r *NativeReg, m strin
 	}
 	if gate < 0 {
 		c.Unclassified("payment-callback.gate", c.P.Pos(post.Decl.Pos()), "no boolean parameter of postTransfer switches the payment callback off")
-		return
+		return nil, false
 	}
 	type pslot struct {
 		name string // method/function name
@@ -512,6 +514,15 @@ func paymentCallbackClause(c *Ctx, regs *Regs, legacy func(r *NativeReg, m strin
 				return true
 			})
 		}
+	}
+	return sources, true
+}
+
+func paymentCallbackClause(c *Ctx, regs *Regs, legacy func(r *NativeReg, m string) bool) {
+	g := c.P.MRG()
+	sources, ok := paymentCallbackSources(c)
+	if !ok {
+		return
 	}
 	c.Floor("functions that switch the payment callback on", len(sources), 2)
 	// hardfork order
